@@ -145,6 +145,9 @@ func init() {
 			{Scenario: "fullwindow/N=2", Budgets: bs(B(1, 1), B(0, 2)), Split: 1},
 			{Scenario: "fullwindow/N=3", Budgets: bs(B(1, 0), B(0, 1)), Split: 1},
 			{Scenario: "fullwindow/N=20", Budgets: bs(B(0, 0))},
+			// plain traffic under drops and duplicates, judged on the window
+			// (a NACK for the base with a full window must not let more out)
+			{Scenario: "uni/N=2/k=7/win", Budgets: bs(B(0, 2)), Split: 1},
 			// keepalive pings count against the window like any DATA packet
 			{Scenario: "pingwindow/N=2", Budgets: bs(B(1, 0)), Split: 1},
 			{Scenario: "pingwindow/N=3", Budgets: bs(B(0, 0))},
@@ -158,6 +161,8 @@ func init() {
 			{Scenario: "fullwindow/N=3", Budgets: bs(B(1, 1), B(0, 2)), Split: 2},
 			{Scenario: "fullwindow/N=20", Budgets: bs(B(0, 1)), Split: 1},
 			{Scenario: "fullwindow/N=254/extra=1", Budgets: bs(B(0, 0))},
+			{Scenario: "uni/N=2/k=7/win", Budgets: bs(B(1, 2), B(0, 3)), Split: 2},
+			{Scenario: "uni/N=1/k=5/win", Budgets: bs(B(1, 1), B(0, 3)), Split: 2},
 			{Scenario: "pingwindow/N=2", Budgets: bs(B(2, 0)), Split: 2},
 			{Scenario: "pingwindow/N=1", Budgets: bs(B(1, 0)), Split: 1},
 			{Scenario: "pingwindow/N=20", Budgets: bs(B(0, 0))},
